@@ -17,18 +17,19 @@ type item struct {
 }
 
 type Obligation struct {
-	Name   string   `json:"name"`
-	Fn     string   `json:"fn"`
-	Kind   string   `json:"kind"`
-	Goal   string   `json:"-"`
-	Pos    int      `json:"-"`
-	Props  []string `json:"props"`
-	Src    string   `json:"src,omitempty"`
-	Where  string   `json:"where,omitempty"`
-	Cover  bool     `json:"cover,omitempty"` // must NOT be unsat
-	tr     *fnTrans
-	Result *SolveResult `json:"result,omitempty"`
+	Name     string   `json:"name"`
+	Fn       string   `json:"fn"`
+	Kind     string   `json:"kind"`
+	Goal     string   `json:"-"`
+	Pos      int      `json:"-"`
+	Props    []string `json:"props"`
+	Src      string   `json:"src,omitempty"`
+	Where    string   `json:"where,omitempty"`
+	Cover    bool     `json:"cover,omitempty"` // must NOT be unsat
+	tr       *fnTrans
+	Result   *SolveResult `json:"result,omitempty"`
 	retTerms []string
+	relaxed  bool
 }
 
 type heapInfo struct {
@@ -41,10 +42,12 @@ type Loc struct {
 	isArr bool
 	obj   string
 	idx   string
-	root  *Sort // sort of the root cell
-	path  []int // field indices
-	val   *Sort // sort of addressed value
-	nilOK bool  // obj known non-nil
+	root  *Sort  // sort of the root cell
+	path  []int  // field indices
+	val   *Sort  // sort of addressed value
+	nilOK bool   // obj known non-nil
+	slice string // for slice elements: the slice term and index (reads become at_<sort> terms)
+	sidx  string
 }
 
 type loopInfo struct {
@@ -159,9 +162,24 @@ func (tr *fnTrans) curHeap(name string) string {
 func (tr *fnTrans) setHeap(name, term string) {
 	hi := tr.maps[name]
 	n := tr.fresh(name)
-	tr.decl(fmt.Sprintf("(define-fun %s () %s %s)", n, heapSortName(hi), term))
+	// a constant (not a macro) so that heap versions can appear in patterns
+	tr.decl(fmt.Sprintf("(declare-const %s %s)", n, heapSortName(hi)))
+	tr.items = append(tr.items, item{fmt.Sprintf("(assert (= %s %s))", n, term), false})
 	tr.heap[name] = n
 	tr.bump(name)
+}
+
+// atStep: elements of slices whose cells are untouched by a heap step read the same in both versions.
+// `touched` is a formula over s!s, k!s describing the cells the step may change.  Both versions are
+// triggers, so an element term in one version produces its counterpart in the other.
+func (tr *fnTrans) atStep(name, h0, h1, touched string) {
+	hi := tr.maps[name]
+	if !hi.isArr || h0 == h1 {
+		return
+	}
+	at := "at_" + hi.elem.Tag()
+	tr.hyp(fmt.Sprintf("(forall ((s!s Slice) (k!s Int)) (! (=> (not %s) (= (%s %s s!s k!s) (%s %s s!s k!s))) :pattern ((%s %s s!s k!s)) :pattern ((%s %s s!s k!s))))",
+		touched, at, h1, at, h0, at, h1, at, h0))
 }
 
 func (tr *fnTrans) bump(name string) {
@@ -183,10 +201,23 @@ func (tr *fnTrans) strLit(s string) string {
 	if n, ok := tr.strLits[s]; ok {
 		return n
 	}
-	n := fmt.Sprintf("strlit!%d", len(tr.strLits))
+	n := litName(s)
 	tr.strLits[s] = n
 	tr.strOrder = append(tr.strOrder, s)
 	return n
+}
+
+// litName: deterministic, readable constant name for a string literal
+func litName(s string) string {
+	h := uint32(2166136261)
+	for i := 0; i < len(s); i++ {
+		h = (h ^ uint32(s[i])) * 16777619
+	}
+	t := sanitize(s)
+	if len(t) > 16 {
+		t = t[:16]
+	}
+	return fmt.Sprintf("lit_%s_%04x", t, h&0xffff)
 }
 
 func (tr *fnTrans) env() *specEnv {
@@ -388,6 +419,9 @@ func (tr *fnTrans) load(l *Loc, pos token.Pos) Term {
 		tr.safe("nil", not(app("=", l.obj, "0")), pos)
 	}
 	root := tr.rootTerm(l, tr.curHeap(l.heap))
+	if l.slice != "" {
+		root = app("at_"+l.root.Tag(), tr.curHeap(l.heap), l.slice, l.sidx)
+	}
 	s, vs := tr.project(root, l.root, l.path)
 	return T(s, vs)
 }
@@ -403,6 +437,7 @@ func (tr *fnTrans) storeTo(l *Loc, v Term, pos token.Pos) {
 	newRoot := tr.update(tr.rootTerm(l, h), l.root, l.path, v.S)
 	if l.isArr {
 		tr.setHeap(l.heap, store(h, l.obj, store(sel(h, l.obj), l.idx, newRoot)))
+		tr.atStep(l.heap, h, tr.curHeap(l.heap), and(app("=", "(sarr s!s)", l.obj), app("=", "(+ (soff s!s) k!s)", l.idx)))
 	} else {
 		tr.setHeap(l.heap, store(h, l.obj, newRoot))
 	}
@@ -617,7 +652,7 @@ func (tr *fnTrans) modTargets(m Clause, env *specEnv, out *[]modTarget) {
 // and not named by targets keeps its contents between versions h0 and h1.
 func (tr *fnTrans) frameFormula(name string, h0, h1, allocBefore string, targets []modTarget) string {
 	hi := tr.maps[name]
-	var whole []string            // objects fully modifiable
+	var whole []string                 // objects fully modifiable
 	fieldMods := map[string][]string{} // obj -> fields
 	var fobjs []string
 	for _, t := range targets {
@@ -666,6 +701,17 @@ func (tr *fnTrans) frameFormula(name string, h0, h1, allocBefore string, targets
 		}
 	}
 	return and(parts...)
+}
+
+// touchedByMods: cells of map `name` that a step framed by (allocBefore, targets) may change
+func (tr *fnTrans) touchedByMods(allocBefore, name string, targets []modTarget) string {
+	cs := []string{app("<", "(sarr s!s)", "0"), app(">=", "(sarr s!s)", allocBefore)}
+	for _, t := range targets {
+		if t.heap == name {
+			cs = append(cs, app("=", "(sarr s!s)", t.obj))
+		}
+	}
+	return or(cs...)
 }
 
 // ---------- CFG ----------
@@ -796,8 +842,17 @@ func (tr *fnTrans) block(b *ssa.BasicBlock) {
 				term = ite(incs[k].cond, tr.heapOf(incs[k].p, name), term)
 			}
 			n := tr.fresh(name)
-			tr.decl(fmt.Sprintf("(define-fun %s () %s %s)", n, heapSortName(tr.maps[name]), term))
+			tr.decl(fmt.Sprintf("(declare-const %s %s)", n, heapSortName(tr.maps[name])))
+			tr.items = append(tr.items, item{fmt.Sprintf("(assert (= %s %s))", n, term), false})
 			tr.heap[name] = n
+			if hi := tr.maps[name]; hi.isArr {
+				at := "at_" + hi.elem.Tag()
+				mt := app(at, tr.heapOf(incs[len(incs)-1].p, name), "s!s", "k!s")
+				for k := len(incs) - 2; k >= 0; k-- {
+					mt = ite(incs[k].cond, app(at, tr.heapOf(incs[k].p, name), "s!s", "k!s"), mt)
+				}
+				tr.hyp(fmt.Sprintf("(forall ((s!s Slice) (k!s Int)) (! (= (%s %s s!s k!s) %s) :pattern ((%s %s s!s k!s))))", at, n, mt, at, n))
+			}
 		}
 		term := tr.outAlloc[incs[len(incs)-1].p]
 		same := true
@@ -1101,6 +1156,7 @@ func (tr *fnTrans) havocLoop(li *loopInfo, b *ssa.BasicBlock) {
 	}
 	for _, m := range maps {
 		tr.hyp(tr.frameFormula(m, tr.heapEntry(m), tr.heap[m], "alloc0", tr.modTerms))
+		tr.atStep(m, tr.heapEntry(m), tr.heap[m], tr.touchedByMods("alloc0", m, tr.modTerms))
 	}
 	save := tr.cur
 	tr.cur = b
